@@ -101,8 +101,31 @@ func (c *Ctx) drawIntn(info *types.Info, rel string, call *ast.CallExpr, stack [
 			c.Trivial("DRAW", key, call.Pos(), why+" (outside the selections C20 names; informational)")
 		}
 	}
+	if body != nil && v == nil && len(stack) > 0 {
+		switch par := stack[len(stack)-1].(type) {
+		case *ast.BinaryExpr:
+			// with replacement, inline: `if rand.Intn(T) == 0 { out[j] = x }`
+			other := par.Y
+			if unparen(par.Y) == ast.Expr(call) {
+				other = par.X
+			}
+			if tv, ok := info.Types[other]; ok && par.Op == token.EQL && tv.Value != nil && tv.Value.ExactString() == "0" {
+				c.drawWithReplacement(info, key, arg, call, stack)
+				return
+			}
+		case *ast.CallExpr:
+			// the draw is handed to a helper that swaps positions (i, draw) of parallel slices
+			if c.drawSwapHelper(info, key, arg, call, par, stack) {
+				return
+			}
+		}
+	}
 	if body == nil || v == nil {
 		unknown("result of the draw is not stored in a variable")
+		return
+	}
+	// --- reservoir, "slot" form: v := C; if N <= C { v = Intn(...) }; if v < N { out[v] = x }
+	if done := c.drawSlotForm(info, key, arg, call, v, body, stack); done {
 		return
 	}
 	// --- reservoir: the draw sits in the else branch of `if C < N { out[C] = x }`, or follows
@@ -280,41 +303,7 @@ func (c *Ctx) drawIntn(info *types.Info, rel string, call *ast.CallExpr, stack [
 	}
 	// --- with replacement: r == 0
 	if allKind("eq0") {
-		tObj := identObj(info, call.Args[0])
-		if tObj == nil {
-			unknown("replacement draw whose range is not a counter variable")
-			return
-		}
-		// T++ must precede the draw in an enclosing loop body
-		before, after := false, false
-		for i := len(stack) - 1; i >= 1; i-- {
-			var list []ast.Stmt
-			switch b := stack[i-1].(type) {
-			case *ast.BlockStmt:
-				list = b.List
-			default:
-				continue
-			}
-			seenSelf := false
-			for _, s := range list {
-				if s == stack[i] {
-					seenSelf = true
-					continue
-				}
-				if inc, ok := s.(*ast.IncDecStmt); ok && inc.Tok == token.INC && identObj(info, inc.X) == tObj {
-					if seenSelf {
-						after = true
-					} else {
-						before = true
-					}
-				}
-			}
-		}
-		if before && !after {
-			c.OK("DRAW", key, call.Pos(), "sampling with replacement: running count "+tObj.Name()+" is incremented before the draw, slot replaced iff Intn("+arg+") == 0 (probability 1/count)")
-		} else {
-			c.Violation("DRAW", key, call.Pos(), "sampling with replacement: the item number "+tObj.Name()+" must be counted before drawing Intn("+tObj.Name()+") == 0; here the increment does not precede the draw, so the probabilities are 1/(count-1) (and Intn(0) panics on the first item)").Clause = "with replacement: independent uniform draws"
-		}
+		c.drawWithReplacement(info, key, arg, call, stack)
 		return
 	}
 	// --- inside-out Fisher–Yates: swap X[i], X[v] = X[v], X[i] in a loop over i
@@ -588,4 +577,225 @@ func incOncePerIteration(info *types.Info, list []ast.Stmt, cnt types.Object) (b
 		atBackEdge(end)
 	}
 	return ok, why
+}
+
+// drawWithReplacement: slot replaced iff Intn(T) == 0, T the running count incremented before the draw.
+func (c *Ctx) drawWithReplacement(info *types.Info, key, arg string, call *ast.CallExpr, stack []ast.Node) {
+	tObj := identObj(info, call.Args[0])
+	if tObj == nil {
+		c.Undecided("DRAW", key, call.Pos(), "replacement draw whose range is not a counter variable: draw idiom not recognised, cannot tell whether the range is unbiased")
+		return
+	}
+	// T++ must precede the draw in an enclosing loop body
+	before, after := false, false
+	for i := len(stack) - 1; i >= 1; i-- {
+		var list []ast.Stmt
+		switch b := stack[i-1].(type) {
+		case *ast.BlockStmt:
+			list = b.List
+		default:
+			continue
+		}
+		seenSelf := false
+		for _, s := range list {
+			if ast.Node(s) == stack[i] {
+				seenSelf = true
+				continue
+			}
+			isInc := false
+			switch x := s.(type) {
+			case *ast.IncDecStmt:
+				isInc = x.Tok == token.INC && identObj(info, x.X) == tObj
+			case *ast.AssignStmt:
+				if len(x.Lhs) == 1 && identObj(info, x.Lhs[0]) == tObj && x.Tok == token.ADD_ASSIGN {
+					if v, ok := intConstOf(info, x.Rhs[0]); ok && v == 1 {
+						isInc = true
+					}
+				}
+			}
+			if isInc {
+				if seenSelf {
+					after = true
+				} else {
+					before = true
+				}
+			}
+		}
+	}
+	if before && !after {
+		c.OK("DRAW", key, call.Pos(), "sampling with replacement: running count "+tObj.Name()+" is incremented before the draw, slot replaced iff Intn("+arg+") == 0 (probability 1/count)")
+	} else {
+		c.Violation("DRAW", key, call.Pos(), "sampling with replacement: the item number "+tObj.Name()+" must be counted before drawing Intn("+tObj.Name()+") == 0; here the increment does not precede the draw, so the probabilities are 1/(count-1) (and Intn(0) panics on the first item)").Clause = "with replacement: independent uniform draws"
+	}
+}
+
+// drawSwapHelper: `h(i, rand.Intn(E))` where h swaps positions (p0, p1) of its receiver's slices:
+// inside-out Fisher–Yates through a helper.
+func (c *Ctx) drawSwapHelper(info *types.Info, key, arg string, call, outer *ast.CallExpr, stack []ast.Node) bool {
+	fn := calleeOf(info, outer)
+	g := c.FuncOfObj(fn)
+	if g == nil || len(outer.Args) != 2 {
+		return false
+	}
+	ginfo := g.Pkg.TypesInfo
+	p0, p1 := paramObj(ginfo, g.Decl, 0), paramObj(ginfo, g.Decl, 1)
+	if p0 == nil || p1 == nil {
+		return false
+	}
+	swaps := 0
+	ast.Inspect(g.Decl.Body, func(m ast.Node) bool {
+		as, ok := m.(*ast.AssignStmt)
+		if !ok || len(as.Lhs) != 2 || len(as.Rhs) != 2 {
+			return true
+		}
+		l0, l1 := c.canon(ginfo, as.Lhs[0], nil), c.canon(ginfo, as.Lhs[1], nil)
+		r0, r1 := c.canon(ginfo, as.Rhs[0], nil), c.canon(ginfo, as.Rhs[1], nil)
+		if l0 == r1 && l1 == r0 && strings.Contains(l0+l1, "["+p0.Name()+"]") && strings.Contains(l0+l1, "["+p1.Name()+"]") {
+			swaps++
+		}
+		return true
+	})
+	if swaps == 0 {
+		return false
+	}
+	// the other argument is the ascending loop index
+	otherArg := outer.Args[0]
+	if unparen(outer.Args[0]) == ast.Expr(call) {
+		otherArg = outer.Args[1]
+	}
+	idx := identObj(info, otherArg)
+	var loopIdx types.Object
+	for i := len(stack) - 1; i >= 0 && loopIdx == nil; i-- {
+		switch lp := stack[i].(type) {
+		case *ast.RangeStmt:
+			if id, ok := lp.Key.(*ast.Ident); ok && id.Name != "_" {
+				loopIdx = info.Defs[id]
+			}
+		case *ast.ForStmt:
+			if as, ok := lp.Init.(*ast.AssignStmt); ok && len(as.Lhs) == 1 {
+				loopIdx = identObj(info, as.Lhs[0])
+			}
+		}
+	}
+	if idx == nil || idx != loopIdx {
+		return false
+	}
+	want := canonPlus1(loopIdx.Name())
+	if arg == want {
+		c.OK("DRAW", key, call.Pos(), fmt.Sprintf("inside-out Fisher–Yates over %s through %s: j = Intn(%s), %d parallel swap(s)", loopIdx.Name(), fn.Name(), arg, swaps))
+	} else {
+		c.Violation("DRAW", key, call.Pos(), fmt.Sprintf("shuffle by swapping position %s with Intn(%s): only Intn(%s) gives every permutation the same probability", loopIdx.Name(), arg, want)).Clause = "Fisher-Yates style shuffles give every permutation the same probability"
+	}
+	return true
+}
+
+// drawSlotForm: `slot := C; if N <= C { slot = Intn(E) }; if slot < N { out[slot] = x }`.
+func (c *Ctx) drawSlotForm(info *types.Info, key, arg string, call *ast.CallExpr, v types.Object, body *ast.BlockStmt, stack []ast.Node) bool {
+	// the draw assignment is the body of an if without else
+	if len(stack) < 3 {
+		return false
+	}
+	as, ok := stack[len(stack)-1].(*ast.AssignStmt)
+	if !ok || as.Tok != token.ASSIGN {
+		return false
+	}
+	var is *ast.IfStmt
+	var list []ast.Stmt
+	for i := len(stack) - 1; i >= 1; i-- {
+		if x, ok := stack[i].(*ast.IfStmt); ok && is == nil {
+			is = x
+			switch b := stack[i-1].(type) {
+			case *ast.BlockStmt:
+				list = b.List
+			case *ast.CaseClause:
+				list = b.Body
+			}
+		}
+	}
+	if is == nil || is.Else != nil || len(is.Body.List) != 1 || is.Body.List[0] != ast.Stmt(as) || list == nil {
+		return false
+	}
+	// v := C just before
+	var cExpr ast.Expr
+	for i, s := range list {
+		if s == ast.Stmt(is) && i > 0 {
+			if d, ok := list[i-1].(*ast.AssignStmt); ok && len(d.Lhs) == 1 && identObj(info, d.Lhs[0]) == v && len(d.Rhs) == 1 {
+				cExpr = d.Rhs[0]
+			}
+		}
+	}
+	if cExpr == nil {
+		return false
+	}
+	cKey := c.canon(info, cExpr, nil)
+	// condition: not (C < N)
+	code := c.toBexpr(info, is.Cond, nil)
+	terms, atoms := map[string]bool{}, map[string]bool{}
+	code.collect(terms, atoms)
+	nKey := ""
+	for t := range terms {
+		if t != cKey {
+			nKey = t
+		}
+	}
+	if nKey == "" || !terms[cKey] {
+		return false
+	}
+	if eq, _, _, err := gfEquiv(code, bNot(bCmp(cKey, token.LSS, nKey))); err != nil || !eq {
+		return false
+	}
+	want := canonPlus1(cKey)
+	// store out[v] guarded by v < N
+	guardOK := false
+	ast.Inspect(body, func(m ast.Node) bool {
+		st, ok := m.(*ast.AssignStmt)
+		if !ok {
+			return true
+		}
+		for _, l := range st.Lhs {
+			ix, ok := unparen(l).(*ast.IndexExpr)
+			if !ok || identObj(info, ix.Index) != v {
+				continue
+			}
+			conds, okc := c.pathConds(info, body, st, true)
+			if !okc {
+				continue
+			}
+			if imp, _, _, err := gfImplies(c.condsToBexpr(info, conds, nil), bCmp(v.Name(), token.LSS, nKey)); err == nil && imp {
+				guardOK = true
+			}
+		}
+		return true
+	})
+	counterOK, why := true, ""
+	if cObj := identObj(info, cExpr); cObj != nil {
+		var loopBody *ast.BlockStmt
+		byLoop := false
+		for i := len(stack) - 1; i >= 0 && loopBody == nil; i-- {
+			switch lp := stack[i].(type) {
+			case *ast.RangeStmt:
+				loopBody = lp.Body
+				byLoop = lp.Key != nil && identObj(info, lp.Key) == cObj
+			case *ast.ForStmt:
+				loopBody = lp.Body
+				if inc, ok := lp.Post.(*ast.IncDecStmt); ok && inc.Tok == token.INC && identObj(info, inc.X) == cObj {
+					byLoop = true
+				}
+			}
+		}
+		if loopBody != nil && !byLoop {
+			counterOK, why = incOncePerIteration(info, loopBody.List, cObj)
+		}
+	}
+	switch {
+	case arg != want:
+		c.Violation("DRAW", key, call.Pos(), fmt.Sprintf("reservoir sampling: the item at zero-based position %s must draw its slot from Intn(%s), not Intn(%s)", cKey, want, arg)).Clause = "every tree / tip subset has the same probability; reservoir sampling"
+	case !guardOK:
+		c.Violation("DRAW", key, call.Pos(), "reservoir sampling: the store into the drawn slot is not guarded by `"+v.Name()+" < "+nKey+"`").Clause = "every tree / tip subset has the same probability"
+	case !counterOK:
+		c.Violation("DRAW", key, call.Pos(), "reservoir sampling: the count of items seen ("+cKey+") is not incremented exactly once on every path of an iteration ("+why+")").Clause = "every tree / tip subset has the same probability; reservoir sampling"
+	default:
+		c.OK("DRAW", key, call.Pos(), "reservoir (slot form): position "+cKey+", slot drawn from Intn("+arg+") once the reservoir is full, stored iff slot < "+nKey)
+	}
+	return true
 }
